@@ -265,11 +265,11 @@ static void run_request(const std::string& ep, long a, long b, long c, long d, l
 	}
 	else if(ep == "FindRoot")
 	{
-		// values at the bracket ends [1,3]: patterns -+,+-,++,--,0+,+0,00,N.,.N
-		static const double L[9] = {-1, 1, 1, -1, 0, 1, 0, NAN, 1}, R[9] = {1, -1, 2, -2, 1, 0, 0, 1, NAN};
+		// values at the bracket ends [1,3]: patterns -+,+-,++,--,0+,+0,00,N.,.N,N0,0N
+		static const double L[11] = {-1, 1, 1, -1, 0, 1, 0, NAN, 1, NAN, 0}, R[11] = {1, -1, 2, -2, 1, 0, 0, 1, NAN, 0, NAN};
 		static const double MAG[4] = {1.0, 1e-170, 1e170, 1e-310};
 		double fl = L[a] * MAG[b], fr = R[a] * MAG[b];
-		auto f = [fl, fr](double x) { return fl + (fr - fl) * (x - 1.0) / 2.0; };
+		auto f = [fl, fr](double x) { return x == 1.0 ? fl : (x == 3.0 ? fr : fl + (fr - fl) * (x - 1.0) / 2.0); };
 		sink   = Find_Root(f, 1.0, 3.0, 1e-8);
 	}
 	else if(ep == "Method1D")
